@@ -80,6 +80,9 @@ func c17Type(rng *rand.Rand, id int) (reflect.Type, []int) {
 			} else if groupable(ft) && ft.Kind() != reflect.Bool {
 				rule = "le=1000000|m_le," + rule
 			}
+		case 3:
+			// a name nobody registered in front of the group rule: it gets its clause, the group rule behind it still counts
+			rule = "nosuch_c17," + rule
 		}
 		fields = append(fields, reflect.StructField{Name: fmt.Sprintf("G%d", f), Type: ft, Tag: reflect.StructTag(`valid:"` + rule + `"`)})
 		gidx = append(gidx, gi)
@@ -442,14 +445,23 @@ func c17FlatCase(res *core.Result, rng *rand.Rand, idx int) {
 		r := fmt.Sprintf("%s=%d", kind[g], g+1)
 		if rng.Intn(4) == 0 {
 			r = "required|m_req," + r
+		} else if rng.Intn(6) == 0 {
+			r = "nosuch_c17," + r
 		}
 		rules[key], rm[key] = r, r
 	}
 	if len(rm) == 0 {
 		return
 	}
+	// values that differ only behind a character the URL syntax gives a meaning to ('=', '&'), or that begin with one
+	sameVals := []string{"same", "sa me", "sa+me", "sa=me", "a&b=c", "=", "YWJj=x1"}
+	otherVals := []string{"other", "sa+me", "sa me", "sa=mf", "a&b=d", "==", "YWJj=x2"}
 	pat := func() map[string]string {
 		p := rng.Intn(5)
+		vi := len(keys) % 3
+		if rng.Intn(2) == 0 {
+			vi = rng.Intn(len(sameVals))
+		}
 		vals := map[string]string{}
 		seen := map[int]bool{}
 		for i, k := range keys {
@@ -462,15 +474,15 @@ func c17FlatCase(res *core.Result, rng *rand.Rand, idx int) {
 				vals[k] = ""
 			case p == 1:
 				if !seen[g] {
-					vals[k] = "x"
+					vals[k] = []string{"x", "x", "=", "=x", "&"}[vi%5]
 				}
 			case p == 2:
-				vals[k] = []string{"same", "sa me", "sa+me"}[len(keys)%3]
+				vals[k] = sameVals[vi]
 			case p == 3:
 				if !seen[g] {
-					vals[k] = []string{"other", "sa+me", "sa me"}[len(keys)%3]
+					vals[k] = otherVals[vi]
 				} else {
-					vals[k] = []string{"same", "sa me", "sa+me"}[len(keys)%3]
+					vals[k] = sameVals[vi]
 				}
 			default:
 				vals[k] = fmt.Sprintf("v%d", i)
